@@ -32,7 +32,10 @@ pub static CLONE_PANIC: std::sync::atomic::AtomicUsize = std::sync::atomic::Atom
 fn clone_hook(id: u32) {
     let _g = Flag::off();
     // a scheduling point inside clone(): other threads may run while this one is "inside the clone"
-    yield_point(Pending::Probe);
+    // (only in runs that arm a clone panic: elsewhere the adaptor must take the same schedule as its twin)
+    if CLONE_PANIC.load(std::sync::atomic::Ordering::SeqCst) > 0 {
+        yield_point(Pending::Probe);
+    }
     emit(json!({"e":"CloneElem","t":cur_tid(),"id":id}));
     let v = CLONE_PANIC.load(std::sync::atomic::Ordering::SeqCst);
     if v > 0 {
